@@ -192,6 +192,14 @@ def project(df):
     return {"k": "ok", "cols": cols, "rows": [{c: _norm(x) for c, x in zip(cols, r)} for r in vals]}
 
 
+def _exc_name(ex):
+    """Nearest builtin exception class (numpy's UFuncTypeError is a TypeError, ...)."""
+    for k in type(ex).__mro__:
+        if k.__module__ == "builtins":
+            return k.__name__
+    return type(ex).__name__
+
+
 def _culprit(ex, disp):
     """Index of the operation whose code raised (outermost frame that runs inside an operation object)."""
     from hed.tools.remodeling.operations.base_op import BaseOp
@@ -227,7 +235,11 @@ def _fmt_ops(ops):
 
 
 def _same(exp, obs):
-    return exp["cols"] == obs["cols"] and list(exp["rows"]) == obs["rows"]
+    if exp["cols"] != obs["cols"] or obs.get("dupcols"):
+        return False
+    if not exp["cols"]:                      # no column left: only the number of rows can be compared
+        return len(exp["rows"]) == len(obs["rows"])
+    return list(exp["rows"]) == obs["rows"]
 
 
 def _same_unordered(exp, obs):
@@ -325,7 +337,7 @@ def check_concrete(c, work):
             obs = project(out)
         except Exception as ex:
             disp_exc = ex
-            obs = {"k": "exc", "e": type(ex).__name__, "msg": str(ex), "op": _culprit(ex, disp)}
+            obs = {"k": "exc", "e": _exc_name(ex), "msg": str(ex), "op": _culprit(ex, disp)}
         info["steps"] += 1
         # ---- input unchanged ----
         if c["flavour"] == "file":
@@ -379,7 +391,7 @@ def check_concrete(c, work):
                     V("order-dependent:%s" % leaked, "%s raises %s: %s after state was carried over; expected %s" % (
                         where, obs["e"], obs["msg"][:200], _show(exp)))
                 else:
-                    V("raises:%s:%s:%s" % (s[0], obs["e"], s[2]),
+                    V("raises:%s:%s:%s%s" % (s[0], obs["e"], s[2], ""),
                       "%s: validated list should run to completion (expected %s) but operation %s raises %s: %s" % (
                           where, _show(exp), s[0], obs["e"], obs["msg"][:300]))
             elif exp["e"] != obs["e"]:
@@ -394,8 +406,8 @@ def check_concrete(c, work):
             continue
         sg = ";".join("%s:%s:%s" % (s[0], s[1], s[2]) for s in c["sigs"])
         text = "%s: expected %s, got %s" % (where, _show(exp), _show(obs))
-        if _same_unordered(exp, obs) and any(s[0] == "split_rows" for s in c["sigs"]):
-            D("tie-order:" + sg, text)
+        if exp["u"] and _same_unordered(exp, obs):
+            info["tie_equivalent"] = info.get("tie_equivalent", 0) + 1      # equal up to the order of equal-onset rows
         elif exp["d"]:
             D("detail:" + sg, text)
         elif prior_leak:
@@ -526,54 +538,63 @@ def _rand_table(rng, with_time):
 
 
 def _record_job(case):
-    """Run an abstract random case on the real code and RECORD what happened (no judgement here)."""
+    """Run an abstract random case on the real code and RECORD what happened (no judgement here).
+    Returns (record for TLC, concrete case, side information for keys/texts)."""
     if "validator" not in _G:
         _init_worker()
     from hed.tools.remodeling.dispatcher import Dispatcher
     ops = [conc_op(o) for o in case["ops"]]
     before = _fmt_ops(ops)
-    rec = {"ops": case["ops"], "tabs": case["tabs"], "order": case["order"], "obs": [], "valid": True, "unchanged": True,
-           "constructed": True}
+    rec = {"ops": case["ops"], "tabs": case["tabs"], "order": case["order"], "obs": [], "valid": True, "unchanged": True}
+    side = {"culprit": {}, "changed": None, "msgs": []}
     try:
         msgs = _G["validator"].validate(ops)
     except Exception as ex:
         msgs = ["validate raised %s" % type(ex).__name__]
     rec["valid"] = not msgs
-    conc = {"ops": ops, "tables": [conc_table(t) for t in case["tabs"]], "order": [f - 1 for f in case["order"]]}
+    side["msgs"] = msgs
+    conc = {"ops": json.loads(before), "tables": [conc_table(t) for t in case["tabs"]], "order": [f - 1 for f in case["order"]]}
     if msgs:
-        return rec, conc
+        return rec, conc, side
+    exc = lambda e: {"k": "exc", "e": e, "cols": [], "rows": [], "n": 0}
     try:
         disp = Dispatcher(ops, data_root=None, backup_name=None, hed_versions=None)
     except Exception as ex:
-        rec["constructed"] = False
-        rec["obs"] = [{"k": "exc", "e": type(ex).__name__, "cols": [], "rows": []} for _ in case["order"]]
-        return rec, conc
-    for f in conc["order"]:
+        rec["obs"] = [exc(_exc_name(ex)) for _ in case["order"]]
+        side["culprit"] = {i: _culprit(ex, None) for i in range(len(case["order"]))}
+        return rec, conc, side
+    for step, f in enumerate(conc["order"]):
         df = _mkdf(conc["tables"][f])
         snap = df.copy(deep=True)
         try:
             with warnings.catch_warnings():
                 warnings.simplefilter("ignore")
                 p = project(disp.run_operations(df))
-            if p.get("dupcols") or any(not r for r in p["rows"]):
-                o = {"k": "odd", "e": "", "cols": p["cols"], "rows": []}
+            if p.get("dupcols"):
+                o = {"k": "odd", "e": "", "cols": p["cols"], "rows": [], "n": len(p["rows"])}
             else:
-                o = {"k": "ok", "e": "", "cols": p["cols"], "rows": p["rows"]}
+                o = {"k": "ok", "e": "", "cols": p["cols"], "rows": p["rows"] if p["cols"] else [], "n": len(p["rows"])}
         except Exception as ex:
-            o = {"k": "exc", "e": type(ex).__name__, "cols": [], "rows": []}
+            o = exc(_exc_name(ex))
+            side["culprit"][step] = _culprit(ex, disp)
         rec["obs"].append(o)
         if not df.equals(snap) or list(df.columns) != list(snap.columns):
             rec["unchanged"] = False
-        if _fmt_ops(ops) != before:
+            side["changed"] = side["changed"] or "input"
+        if _fmt_ops(ops) != before and rec["unchanged"]:
             rec["unchanged"] = False
-    return rec, conc
+            ch = [i for i, (x, y) in enumerate(zip(json.loads(before), ops)) if _fmt_ops(x) != _fmt_ops(y)]
+            i = ch[0] if ch else 0
+            x, y = json.loads(before)[i].get("parameters", {}), ops[i].get("parameters", {})
+            side["changed"] = "%s:%s" % (case["ops"][i]["op"], "+".join(k for k in sorted(set(x) | set(y))
+                                                                        if _fmt_ops(x.get(k)) != _fmt_ops(y.get(k))))
+    return rec, conc, side
 
 
 _RE_VERDICT = re.compile(r'<<"(ACCEPT|REJECT)", (\d+)(?:, "([^"]*)", (\d+), (TRUE|FALSE))?>>')
 
 
-def binding_b(ctx, pool, n):
-    rng = ctx.rng
+def b_cases(rng, n):
     cases = []
     for _ in range(n):
         with_time = rng.random() < 0.7
@@ -582,12 +603,18 @@ def binding_b(ctx, pool, n):
         ops = [_rand_op(rng, cols) for _ in range(rng.randint(1, 3))]
         order = [rng.randint(1, len(tabs)) for _ in range(rng.randint(1, 4))]
         cases.append({"ops": ops, "tabs": tabs, "order": order})
-    recs = pool.map(_record_job, cases, chunksize=16)
+    return cases
+
+
+def b_judge(ctx, recs, workdir):
     path = os.path.join(ctx.work, "recorded.json")
     with open(path, "w") as fh:
-        json.dump([r for r, _ in recs], fh)
-    r = ctx.tlc("Trace_Remodel", "Trace_Remodel.cfg", workers=1, env={"TRACE_FILE": path},
-                label="trace validation of %d recorded random runs" % len(recs), timeout=1200)
+        json.dump([r for r, _, _ in recs], fh)
+    return ctx.tlc("Trace_Remodel", "Trace_Remodel.cfg", workers=1, env={"TRACE_FILE": path}, workdir=workdir,
+                   label="trace validation of %d recorded random runs" % len(recs), timeout=1500, heap="6g")
+
+
+def b_report(ctx, recs, r):
     verdict = {}
     for m in _RE_VERDICT.finditer(r.stdout):
         i = int(m.group(2))
@@ -598,31 +625,48 @@ def binding_b(ctx, pool, n):
     if len(verdict) != len(recs):
         raise tlc.TLCFailure("Trace_Remodel judged %d of %d recorded cases" % (len(verdict), len(recs)))
     rejected = 0
-    for i, (rec, conc) in enumerate(recs, 1):
+    for i, (rec, conc, side) in enumerate(recs, 1):
         ctx.traces += 1
-        names = "+".join(o["op"] for o in rec["ops"])
         ctx.case("B:" + sha([rec["ops"], rec["tabs"], rec["order"]]), nontrivial=len(rec["order"]) > 1 or len(rec["ops"]) > 1)
-        if not verdict[i]:
+        fails = sorted(verdict[i], key=lambda x: (x[2], x[1], x[0]))
+        if not fails:
             continue
         rejected += 1
-        # re-run the concrete case through binding A's executor to obtain key/text/replay; the judgement was TLC's
-        clause, step, detail = verdict[i][0]
-        if detail or clause in ("result-detail",):
-            ctx.bump("spec_drift")
-            _keep(ctx, "spec_drift_examples", {"clause": clause, "step": step, "ops": conc["ops"]})
-            continue
-        rp = {"mode": "recorded", "ops": conc["ops"], "tables": conc["tables"], "order": conc["order"],
-              "sigs": [list(op_sig(o)) for o in rec["ops"]], "observed": rec["obs"], "clause": clause, "step": step}
-        sg = ";".join("%s:%s:%s" % tuple(op_sig(o)) for o in rec["ops"])
-        obs = rec["obs"][step - 1] if 0 < step <= len(rec["obs"]) else {}
-        if clause == "runs" and obs.get("k") == "exc":
-            key = "raises:%s:%s" % (names if len(rec["ops"]) > 1 else "%s" % names, obs.get("e")) + \
-                  (":" + op_sig(rec["ops"][0])[2] if len(rec["ops"]) == 1 else "")
-        else:
-            key = "%s:%s" % ({"result": "wrong-result", "runs": "raises", "pure": "mutates", "order": "order-dependent",
-                              "valid": "validation-differs", "error": "missing-error"}.get(clause, clause), sg)
-        ctx.violation("B:" + key, "recorded run rejected by Remodel.tla, clause %s at step %d: ops=%s tables=%r order=%s observed=%s" % (
-            clause, step, json.dumps(conc["ops"]), conc["tables"], conc["order"], json.dumps(obs)[:400]), rp)
+        sigs = [op_sig(o) for o in rec["ops"]]
+        sg = ";".join("%s:%s:%s" % s for s in sigs)
+        leaked = side["changed"].split(":")[0] if side["changed"] and side["changed"] != "input" else None
+        for clause, step, detail in fails:
+            if detail:
+                ctx.bump("spec_drift")
+                kinds = ctx.extra.setdefault("spec_drift_kinds", {})
+                kinds["B:" + clause] = kinds.get("B:" + clause, 0) + 1
+                _keep(ctx, "spec_drift_examples", {"key": "B:" + clause, "step": step, "ops": conc["ops"],
+                                                   "tables": conc["tables"], "order": conc["order"]})
+                continue
+            obs = rec["obs"][step - 1] if 0 < step <= len(rec["obs"]) else {}
+            if clause in ("runs", "runs-d"):
+                ci = side["culprit"].get(step - 1)
+                s = sigs[ci] if ci is not None and ci < len(sigs) else ("+".join(x[0] for x in sigs), "", "")
+                key = "raises:%s:%s:%s%s" % (s[0], obs.get("e"), s[2], "")
+                if leaked and step > 1:
+                    key = "order-dependent:" + leaked
+            elif clause == "pure":
+                key = "mutates-params:" + side["changed"] if side["changed"] != "input" else "mutates-input:" + sg
+            elif clause == "order":
+                key = "order-dependent:" + (leaked or "+".join(x[0] for x in sigs))
+            elif clause == "result":
+                key = ("order-dependent:" + leaked) if leaked and step > 1 else "wrong-result:" + sg
+            elif clause == "error":
+                key = "missing-error:" + ";".join("%s:%s" % (x[0], x[1]) for x in sigs)
+            elif clause == "valid":
+                key = ("rejects-valid:" if side["msgs"] else "accepts-invalid:") + sg
+            else:
+                key = clause + ":" + sg
+            rp = {"mode": "recorded", "ops": conc["ops"], "tables": conc["tables"], "order": conc["order"],
+                  "observed": rec["obs"], "clause": clause, "step": step, "changed": side["changed"]}
+            ctx.violation(key, "recorded run rejected by Remodel.tla (clause %s, step %d): ops=%s tables=%r order=%s observed=%s %s" % (
+                clause, step, json.dumps(conc["ops"]), conc["tables"], conc["order"], json.dumps(obs)[:400],
+                ("changed: " + side["changed"]) if side["changed"] else ""), rp)
     ctx.note("recorded_runs_judged_by_tlc", len(recs))
     ctx.note("recorded_runs_rejected", rejected)
 
@@ -675,43 +719,74 @@ def run(ctx):
                 "from MC_Remodel.tla, plus seeded random deeper cases recorded from the real code and judged by TLC; "
                 "distinct = distinct (operation list, tables, order); non-trivial = the expected outcome differs from the "
                 "input table, is a documented error, or the list is invalid")
-    # ---- 1. sensitivity: a design that keeps per-file state on an operation object must be rejected ----
-    sens = {}
-    for cfg, inv in [("MC_Remodel_leaky_params.cfg", "ParamsConstant"), ("MC_Remodel_leaky_order.cfg", "OrderIndependent")]:
-        r = ctx.tlc("MC_Remodel", cfg, workers=4, expect_ok=False, label="sensitivity: " + cfg)
-        sens[cfg] = r.violated
-        if r.violated != inv:
-            raise tlc.TLCFailure("sensitivity run %s should violate %s, got %s" % (cfg, inv, r.violated))
-    ctx.note("defective_designs_rejected_by_spec", sens)
-    # ---- 2. model checking + case emission (one worker: the emitted lines must not interleave) ----
-    runs = [("MC_Remodel_unit_q.cfg" if quick else "MC_Remodel_unit_t.cfg", "single operations x tables, each table run twice"),
-            ("MC_Remodel_seq_q.cfg" if quick else "MC_Remodel_seq_t.cfg", "lists of 2-3 operations x 1-3 tables x all orders")]
-    cases = []
-    for cfg, lab in runs:
-        r = ctx.tlc("MC_Remodel", cfg, workers=1, coverage=True, label="invariants + emission: " + lab,
-                    timeout=1500, heap="6g")
-        if not r.json_lines:
-            raise tlc.TLCFailure("no cases emitted by %s" % cfg)
-        cases.append((cfg, r.json_lines))
-    ctx.exhaustive = True
-    # ---- 3. replay ----
     import hed  # noqa: F401   (import once; children are forked)
     import hed.tools.remodeling.cli.run_remodel  # noqa: F401
     from hed.tools.remodeling.remodeler_validator import RemodelerValidator
+    from concurrent.futures import ThreadPoolExecutor
     _G["work"] = ctx.work
     _G.pop("validator", None)
-    concs = []
-    n = 0
-    for cfg, lines in cases:
-        for j in lines:
-            n += 1
-            flavour = "file" if n % 3 == 0 else "df"
-            concs.append((j, concretise(j, flavour)))
     mpctx = mp.get_context("fork")
-    with mpctx.Pool(14) as pool:
-        res = pool.map(_job, [c for _, c in concs], chunksize=32)
+    # the worker processes are forked BEFORE any thread exists; TLC JVMs are then started side by side from threads
+    with mpctx.Pool(14) as pool, ThreadPoolExecutor(8) as ex:
+        # ---- 1. TLC: sensitivity, coverage (small model), invariants + case emission ----
+        jobs = [("sens", "MC_RemodelSmall", "MC_RemodelSmall_leaky_params.cfg",
+                 dict(workers=2, expect_ok=False, label="sensitivity: an operation that keeps per-file state must violate ParamsConstant")),
+                ("sens", "MC_RemodelSmall", "MC_RemodelSmall_leaky_order.cfg",
+                 dict(workers=2, expect_ok=False, label="sensitivity: ... and OrderIndependent")),
+                ("design", "MC_RemodelSmall", "MC_RemodelSmall.cfg",
+                 dict(workers=2, coverage=True, label="design run with coverage (small model)", timeout=900)),
+                ("gen", "MC_Remodel", "MC_Remodel_unit_q.cfg" if quick else "MC_Remodel_unit_t.cfg",
+                 dict(workers=1, timeout=2400, heap="6g",
+                      label="invariants + emission: single operations x tables, each table run twice")),
+                ("gen", "MC_Remodel", "MC_Remodel_seq_q.cfg" if quick else "MC_Remodel_seq_t.cfg",
+                 dict(workers=1, timeout=2400, heap="6g",
+                      label="invariants + emission: lists of 2-3 operations x 1-3 tables x all orders"))]
+        # (a metadir of its own for every JVM: they start within the same millisecond)
+        futs = [ex.submit(ctx.tlc, mod, cfg, workdir=os.path.join(ctx.work, "tlc%d" % n), **kw)
+                for n, (_, mod, cfg, kw) in enumerate(jobs)]
+        # ---- 2. binding B, recording part: the pool is idle while TLC enumerates ----
+        recs = pool.map(_record_job, b_cases(ctx.rng, 300 if quick else 6000), chunksize=16)
+        fut_b = ex.submit(b_judge, ctx, recs, os.path.join(ctx.work, "tlcB"))
+        # ---- 3. binding A: replay the emitted cases as soon as a model is finished ----
+        sens = {}
+        concs = []
+        pending = []
+        n = 0
+        for (kind, mod, cfg, kw), fut in zip(jobs, futs):
+            r = fut.result()
+            if kind == "sens":
+                want = "ParamsConstant" if "params" in cfg else "OrderIndependent"
+                sens[cfg] = r.violated
+                if r.violated != want:
+                    raise tlc.TLCFailure("sensitivity run %s should violate %s, got %s" % (cfg, want, r.violated))
+            elif kind == "design":
+                if not r.coverage.get("Next", (0, 0))[1]:
+                    raise tlc.TLCFailure("vacuous design run: no Run step was taken (%s)" % (r.coverage,))
+            else:
+                if not r.json_lines:
+                    raise tlc.TLCFailure("no cases emitted by %s" % cfg)
+                part = []
+                for j in r.json_lines:
+                    n += 1
+                    part.append((j, concretise(j, "file" if n % 3 == 0 else "df")))
+                r.json_lines = []
+                r.stdout = ""
+                concs += part
+                pending.append(pool.map_async(_job, [c for _, c in part], chunksize=32))
+        ctx.note("defective_designs_rejected_by_spec", sens)
+        ctx.exhaustive = True
+        res = []
+        for p in pending:
+            res += p.get()
         drift = 0
-        executed = steps = invalid = 0
+        executed = steps = invalid = ties = 0
+        kinds = {}
+        for j, c in concs:
+            for e in j["exp"]:
+                kinds[e["k"]] = kinds.get(e["k"], 0) + 1
+            if not j["valid"]:
+                kinds["invalid-list"] = kinds.get("invalid-list", 0) + 1
+        ctx.note("expected_outcomes_by_kind", kinds)        # non-vacuity of ValidImpliesRuns / InvalidNeverExecutes
         for (j, c), r in zip(concs, res):
             if "crash" in r:
                 raise RuntimeError("harness failure on case %s: %s" % (json.dumps(c["ops"]), r["crash"]))
@@ -720,6 +795,7 @@ def run(ctx):
                 executed += 1
                 ctx.traces += 1
                 steps += r["info"]["steps"]
+                ties += r["info"].get("tie_equivalent", 0)
             elif not c["valid"]:
                 invalid += 1
             for level, key, text in r["F"]:
@@ -734,6 +810,7 @@ def run(ctx):
         ctx.note("tlc_cases", len(concs))
         ctx.note("cases_executed_on_dispatcher", executed)
         ctx.note("dispatcher_runs", steps)
+        ctx.note("results_equal_up_to_order_of_equal_onset_rows", ties)
         ctx.note("invalid_lists_reported_not_executed", invalid)
         # ---- 4. invalid lists through the command-line program: reported, nothing executed ----
         _G["validator"] = RemodelerValidator()
@@ -754,8 +831,8 @@ def run(ctx):
                               "run_remodel with a list that fails validation ended with %r instead of reporting the messages; ops=%s" % (
                                   outcome, json.dumps(c["ops"])), dict(_replay_obj(c), mode="cli"))
         ctx.note("cli_invalid_list_scenarios", ncli)
-        # ---- 5. binding B ----
-        binding_b(ctx, pool, 300 if quick else 6000)
+        # ---- 5. binding B, verdicts ----
+        b_report(ctx, recs, fut_b.result())
     for j, c in [concs[i] for i in (len(concs) // 7, len(concs) // 2, len(concs) - 5) if i < len(concs)]:
         ctx.sample({"ops": c["ops"], "tables": c["tables"], "order": c["order"], "valid": c["valid"],
                     "expected": [_show(e) for e in c["expected"]], "flavour": c["flavour"]})
